@@ -9,6 +9,7 @@ completion inside `spacelike_to` (`T J Tᵀ = J`, row 1 the normalised normal), 
 are handed back).
 -/
 import GT.Lemmas.Reflect
+import GT.Model.Isometry
 import Mathlib.Tactic.NormNum
 import Mathlib.Tactic.FinCases
 
@@ -205,6 +206,28 @@ theorem hyperplaneData_spec (T : Matrix (Fin (n + 2)) (Fin (n + 2)) K) (hT : T *
   · rw [hrow, mink_vecMul T hT, hs1]
   · rw [hrow, hnorm, mink_vecMul T hT, hs2]
 
+/-- the form matrix of this file is the one of the isometry model (`GT.Iso.minkJ`, C02) -/
+theorem Jm_eq_minkJ : (Jm : Matrix (Fin (n + 1)) (Fin (n + 1)) K) = GT.Iso.minkJ n := by
+  unfold Jm GT.Iso.minkJ GT.Iso.minkDiag
+  congr 1
+  funext i
+  refine Fin.cases ?_ (fun j => ?_) i
+  · simp
+  · simp [Fin.succ_ne_zero]
+
+/-- `hyperplaneData_spec` with the contract stated in the vocabulary of C02: for the repaired
+`spacelike_to` (frame `(t, v̂)` completed by `find_isometry`, model `GT.GS.spacelikeTo`),
+`GT.C02.spacelikeTo_isIso` provides `GT.Iso.IsIso T`; its row 1 is the normalised normal because
+Gram–Schmidt leaves `v̂ ⟂ t` alone.  No row permutation is involved any more. -/
+theorem hyperplaneData_spec_isIso (T : Matrix (Fin (n + 2)) (Fin (n + 2)) K)
+    (hT : GT.Iso.IsIso T) (hn : 0 < n) (normal : Fin (n + 2) → K) (h1 : T 1 = normal)
+    (j : Fin (n + 1)) :
+    hyperplaneData T normal 0 = normal ∧
+    mink (hyperplaneData T normal j.succ) (hyperplaneData T normal j.succ) = 0 ∧
+    mink (hyperplaneData T normal j.succ) normal = 0 := by
+  apply hyperplaneData_spec T _ hn normal h1 j
+  rw [Jm_eq_minkJ]; exact hT
+
 end field
 
 /-! ## the eigenvalue test of `from_reflection` -/
@@ -273,6 +296,28 @@ theorem fromReflection_rejects (ε : K) (hε : ε < 1) (evals : List K)
         rw [List.mem_iff_getElem]
         refine ⟨i, by simp [hi], by simp⟩
       simpa using hall _ hmem
+
+/-- the second stage of the acceptance decision: a `(-1)`-eigenvector that is not spacelike is
+refused whatever the spectrum -/
+theorem fromReflection_rejects_nonspacelike (ε : K) (evals : List K) (vnorm : K)
+    (h : vnorm ≤ ε) : fromReflectionAccepts ε evals vnorm = false := by
+  unfold fromReflectionAccepts
+  simp [not_lt.2 h]
+
+/-- … and this is what separates a reflection from the point reflection `x ↦ x − 2⟨x,p⟩/⟨p,p⟩ p`
+about a *timelike* `p` (the negatively scaled half-turn), which is also an involutive isometry with
+spectrum `(-1, 1, …, 1)`: every `(-1)`-eigenvector of `reflMat d` has Minkowski norm
+`(⟨v,d⟩/⟨d,d⟩)²·⟨d,d⟩`, of the sign of `⟨d,d⟩` — spacelike for a reflection across a wall,
+timelike for the point reflection, which is therefore rejected -/
+theorem neg_eigvec_sign (d v : Fin (n + 1) → K) (hd : mink d d ≠ 0)
+    (hv : v ᵥ* reflMat d = fun i => -v i) :
+    mink v v = (mink v d / mink d d) ^ 2 * mink d d := by
+  have h2 : NeZero (2 : K) := ⟨two_ne_zero⟩
+  have h := neg_eigvec_unique d v hd hv
+  have e : mink (fun i => (mink v d / mink d d) * d i) (fun i => (mink v d / mink d d) * d i)
+      = (mink v d / mink d d) ^ 2 * mink d d := by
+    rw [mink_mul_left, mink_mul_right]; ring
+  rw [← e, ← h]
 
 /-! ## fixed points: selection of the eigenvectors -/
 
